@@ -73,6 +73,17 @@ def discharge_all(obs, quick_ms=300, cli_timeout_s=20, all_solvers=False, seed=0
                 verdict, res = "unsat", res2
             elif verdict == "unknown" and d2:
                 verdict, res = d2.pop(), res2
+        if verdict == "unknown" and any(tm.has_quantifier(a) for a in list(ob.pc) + [ob.goal]):
+            # bounded falsification (lists of length <= 2, quantified hypotheses expanded): a model of
+            # the restricted problem is a genuine counter-model; an unsat answer proves nothing
+            inst = tm.bounded_instance(list(ob.pc) + [tm.Not(ob.goal)], 2)
+            if inst is not None:
+                res3 = solve.cli_race(tm.smt_script(inst, produce_models=False),
+                                      cli_timeout_s, workdir, wait_all=False)
+                if any(v.verdict == "sat" for v in res3.values()):
+                    ob.meta["bounded_falsification"] = "lists of length <= 2"
+                    ob.meta["bounded_pc"] = inst
+                    return ob, ("sat", {k: v for k, v in res3.items()})
         return ob, (verdict, res)
 
     if pending:
@@ -90,6 +101,8 @@ def discharge_all(obs, quick_ms=300, cli_timeout_s=20, all_solvers=False, seed=0
     # models for failed obligations (in-process z3, bounded effort) -- used for replay only
     for ob in obs:
         if ob.result.verdict == "sat":
-            r2 = solve.z3_check(list(ob.pc) + [tm.Not(ob.goal)], 5000, want_model=True, seed=seed)
+            pc = ob.meta.pop("bounded_pc", None) or list(ob.pc)
+            r2 = solve.z3_check(pc if "bounded_falsification" in ob.meta else pc + [tm.Not(ob.goal)], 5000,
+                                want_model=True, seed=seed)
             if r2.verdict == "sat":
                 ob.result.model = r2.model
